@@ -186,7 +186,7 @@ def worker(indices):
     oq.quiet()
     rel = oq.Rel()
     rng = random.Random(SEED * 104729 + (indices[0] if indices else 0))
-    per = 1 if TIER == "quick" else 2
+    per = 1
     viol = []
     cnt = dict(cases=0, runs=0, nontrivial=0, entities=0, sql=0, assignments=0)
     strat_cov = {}
@@ -260,9 +260,8 @@ def plans_for(chk):
     sc = oq.scale()
     if chk.quick:
         return [("InitPart1", dict(base, K=1, GridKeepF=max(1, int(35 * sc)), GridKeep=max(1, int(35 * sc)), NQ=int(1200 * sc)))]
-    return [("InitPart1", dict(base, K=1, NQ=int(9000 * sc))),
-            ("InitPart1", dict(base, K=1, GridKeep=50, NQ=int(9000 * sc))),
-            ("InitPart1", dict(base, K=0, NQ=int(4000 * sc), NP=2, NC=3, NG=3))]
+    return [("InitPart1", dict(base, K=1, NQ=int(2500 * sc))),
+            ("InitPart1", dict(base, K=0, NQ=int(2500 * sc), NP=2, NC=3, NG=3))]
 
 
 def main(chk):
